@@ -6,10 +6,18 @@
    strings and positions; (2) the rendered string is the concatenation of the items of that
    sequence, where AND / OR / parentheses are fixed texts and every license is the template
    applied to it: a custom template changes the license items only.
-   The step from the rendered string to these tokens (the tokenizer recognising each rendered key
-   again, which needs the table to be free of operator words) is decided by the correspondence and
-   the oracle; hence _partial on the round trip. *)
-Require Import Model.Base Model.Expr Model.LicTok Model.BoolParse Proofs.BoolParse Proofs.Render.
+   (3) the token types of that sequence are exactly the items render() writes, and any token list
+   with these types - whatever strings and positions it carries - parses back to e;
+   (4) the words of the rendered string (split on white space and parentheses) are, in order, the
+   words of its items: the words of every license key, AND / OR / WITH, and the parentheses - for
+   keys that are space-free, parenthesis-free words joined by single spaces (splitting a
+   concatenation of such words, single spaces and parentheses gives back exactly those chunks).
+   What is left to the correspondence and the oracle is the step from these words to the tokens
+   under a given table (each rendered key recognised again as one token, which needs the table to be
+   free of operator words; C02_text_parses_to_its_tree reduces it to a segmentation of the words):
+   hence _partial on the round trip of the string. *)
+Require Import Model.Base Model.Expr Model.Split Model.LicTok Model.BoolParse Proofs.BoolParse Proofs.Render.
+Require Import Proofs.Kinds Proofs.RenderKinds Proofs.RenderWords Proofs.Resplit.
 
 Theorem C05_render_tokens_roundtrip_partial : forall i0 wrap e, wf e = true ->
   bparse (tok_or (to_or i0 wrap e)) = POk e.
@@ -25,3 +33,28 @@ Theorem C05_template_only_changes_licenses : forall f wrap e,
   render_with key wrap e = flat_map (item_str key) (render_items wrap e).
 Proof. exact render_template. Qed.
 Print Assumptions C05_template_only_changes_licenses.
+
+Theorem C05_items_parse_back : forall (i0 : info) e (ts : list ptok), wf e = true ->
+  map kind_of ts = render_items false e -> bparse ts = POk e.
+Proof. exact render_kinds_roundtrip. Qed.
+Print Assumptions C05_items_parse_back.
+
+Theorem C05_surface_syntax_is_what_render_writes : forall (i0 : info) e, wf e = true ->
+  map kind_of (tok_or (to_or i0 false e)) = render_items false e.
+Proof. exact kinds_to_or. Qed.
+Print Assumptions C05_surface_syntax_is_what_render_writes.
+
+Theorem C05_words_of_the_rendering : forall O, is_space O 32%N = true ->
+  (forall c, In c [65; 78; 68; 79; 82; 87; 73; 84; 72; 40; 41]%N -> is_space O c = false) ->
+  forall (kwords : sym -> list str) wrap e, wf e = true -> expr_keys_ok O kwords e ->
+  words O (render_with key wrap e) = flat_map (rwords kwords) (render_items wrap e).
+Proof. exact render_words. Qed.
+Print Assumptions C05_words_of_the_rendering.
+
+Theorem C05_parser_ignores_token_strings : forall ts ts' e, map pt ts = map pt ts' -> bparse ts = POk e -> bparse ts' = POk e.
+Proof. exact bparse_kinds. Qed.
+Print Assumptions C05_parser_ignores_token_strings.
+
+Theorem C05_resplit : forall O ws, canon O ws -> map ptext (pieces O (concat ws)) = ws.
+Proof. exact resplit. Qed.
+Print Assumptions C05_resplit.
